@@ -65,14 +65,24 @@ fn digest(w: &World) -> String {
         v.is_initialized() as u8, v.is_confirmed() as u8, v.time_window(), v.amount(), us.join(" "))
 }
 
-/// `next_minting_cost` loops once per grow step: a mint that crosses more than this many steps is
-/// skipped on both sides (it would exhaust the compute budget on chain; reported as a limit).
-const MAX_STEP_LOOP: u64 = 20_000;
-fn too_many_steps(g: &GtState, step: u64, amount: u64) -> bool {
-    match g.total_minted().checked_add(amount) {
-        Some(t) if step != 0 && amount != 0 => (t / step).saturating_sub(g.grow_steps()) > MAX_STEP_LOOP,
-        _ => false,
+/// `next_minting_cost` loops once per grow step (an on-chain compute-limit hazard, see
+/// design.d/C30.md). A mint is skipped on both sides only if the loop would really run for more
+/// than MAX_STEP_LOOP iterations: more steps than that AND no u128 overflow of the growing cost
+/// within the first MAX_STEP_LOOP iterations (an overflow ends the real loop early with `Internal`,
+/// so those mints are executed and compared). The bounded pre-run uses exact big integers.
+const MAX_STEP_LOOP: u64 = 100_000;
+fn too_many_steps(g: &GtState, step: u64, factor: u128, amount: u64) -> bool {
+    let Some(t) = g.total_minted().checked_add(amount) else { return false };
+    if step == 0 || amount == 0 || (t / step).saturating_sub(g.grow_steps()) <= MAX_STEP_LOOP { return false; }
+    let (lim, unit, f) = (BigUint::from(1u8) << 128, BigUint::from(UNIT), BigUint::from(factor));
+    let mut c = BigUint::from(g.minting_cost());
+    for _ in 0..MAX_STEP_LOOP {
+        let next = &c * &f / &unit;
+        if next >= lim { return false; }      // the real loop stops here with an error
+        if next == c { return true; }         // fixed point: the real loop would spin to the end
+        c = next;
     }
+    true
 }
 
 struct Eng { worlds: HashMap<u64, World> }
@@ -112,7 +122,7 @@ impl Eng {
             ("mint", 6) => {
                 let (uid, amount) = (u64_(4)? as usize, u64_(5)?);
                 if uid >= w.users.len() { return Some("err Arg".into()); }
-                if too_many_steps(&w.gt, w.step, amount) { return Some("skip StepLoop".into()); }
+                if too_many_steps(&w.gt, w.step, w.factor, amount) { return Some("skip StepLoop".into()); }
                 hk::gt_mint_to(&mut w.gt, &mut w.users[uid], amount).map(|_| { if amount != 0 { w.touched[uid] = true; } String::new() }).map_err(|e| err(&e))
             }
             ("burn", 6) => {
@@ -125,7 +135,7 @@ impl Eng {
                 if uid >= w.users.len() { return Some("err Arg".into()); }
                 match hk::gt_get_mint_amount(&w.gt, value) {
                     Err(e) => Err(err(&e)),
-                    Ok((m, _, _)) if too_many_steps(&w.gt, w.step, m) => return Some("skip StepLoop".into()),
+                    Ok((m, _, _)) if too_many_steps(&w.gt, w.step, w.factor, m) => return Some("skip StepLoop".into()),
                     Ok((m, mv, c)) => hk::gt_mint_to(&mut w.gt, &mut w.users[uid], m).map(|_| { if m != 0 { w.touched[uid] = true; } format!(" {m} {mv} {c}") }).map_err(|e| err(&e)),
                 }
             }
@@ -226,7 +236,7 @@ fn gen_history(r: &mut Rng, sid: u64, len: u64, out: &mut Vec<String>) {
         now += match r.below(4) { 0 => 0, 1 => r.range(1, 5) as i64, 2 => r.range(1, 100) as i64, _ => r.range(100, 5000) as i64 };
         let uid = if r.chance(1, 40) { n } else { r.below(n) };
         let b = bal.get(uid as usize).cloned().unwrap_or(0);
-        let small = |r: &mut Rng| match r.below(8) { 0 => 0u64, 1 => r.num(64) as u64, _ => r.range(1, 300) };
+        let small = |r: &mut Rng| match r.below(16) { 0 | 1 => 0u64, 2 | 3 => r.num(64) as u64, 4 => step.saturating_mul(r.range(1_000, 90_000)), _ => r.range(1, 300) };
         match r.below(12) {
             0..=3 => { let a = small(r); out.push(format!("gt mint {sid} {now} {uid} {a}")); if (uid as usize) < bal.len() { bal[uid as usize] = b.saturating_add(a); } }
             4 | 5 => { let a = match r.below(5) { 0 => b, 1 => b.saturating_add(1), 2 => 0, _ => r.below(b.saturating_add(1)) }; out.push(format!("gt burn {sid} {now} {uid} {a}")); if a <= b && (uid as usize) < bal.len() { bal[uid as usize] = b - a; } }
